@@ -22,6 +22,8 @@ import (
 
 const c03Self = "example.com/self"
 
+func refOf(path, name string) gengotypes.TypeName { return gengotypes.Ref(path, name) }
+
 type trackCase struct {
 	Paths []string `json:"paths"` // referenced in this order; may contain the target package and repeats
 }
